@@ -58,7 +58,7 @@ Proof. intros H. rewrite <- (app_nil_r a). rewrite trim_left_all by exact H. ref
 Lemma trim_crlf_clean body eol :
   forallb clean body = true -> forallb is_crlf eol = true -> trim_crlf (body ++ eol) = body.
 Proof.
-  intros Hb He. unfold trim_crlf.
+  intros Hb He. unfold trim_crlf, rev'. rewrite <- !rev_alt.
   assert (H1 : trim_left_crlf (body ++ eol) = match body with [] => [] | _ => body ++ eol end).
   { destruct body as [|x r]; [apply trim_left_nil_r; exact He|].
     cbn [forallb] in Hb. apply Bool.andb_true_iff in Hb. destruct Hb as [Hx _].
